@@ -15,10 +15,10 @@ def gen_cases(chk, table, n, big=0):
         rng = chk.rng('c11/%d' % i)
         kind = rng.random()
         text_safe = rng.random() < 0.3            # binary must carry what text cannot: NaNs, NUL-less strings...
-        g = G.ModGen(rng, table, text_safe=text_safe, canon_labels=rng.random() < 0.3)
+        g = G.ModGen(rng, table, text_safe=text_safe, canon_labels=rng.random() < 0.3, split_ctx=0.6, temp_names=0.35)
         if kind < 0.55:
             cases.append(g.case(nmodules=1, n_items=rng.choice([0, 2, 6, 12]), with_exec=True))
-        elif kind < 0.75:
+        elif kind < 0.8:
             cases.append(g.case(nmodules=rng.choice([2, 3]), n_items=rng.choice([1, 4, 8]), with_exec=True))
         else:
             cases.append(g.case(nmodules=rng.choice([1, 2]), n_items=rng.choice([3, 10, 25]), with_exec=False))
@@ -35,6 +35,12 @@ def judge(case, raw, cmpr, model):
     bad = []
     for tag, d in (('raw', raw), ('compressed', cmpr)):
         if 'SKIPPED' in d:
+            continue
+        if d.get('build', '').startswith('SEGERR'):
+            # modules written one context at a time and read together (newctx): a failure there is a failure of the
+            # writer or the reader on API-built modules, not a rejected description
+            bad.append(('segment-io-rejects:' + K.err_class(d['build']), '%s: writing the modules context by context and reading '
+                        'them into one context fails: %s' % (tag, d['build'])))
             continue
         if d.get('build', '').startswith('REJECT'):
             return [('gen:rejected', 'API rejected the generated module: ' + d['build'])] if tag == 'raw' else bad
@@ -65,6 +71,13 @@ def judge(case, raw, cmpr, model):
             bad.append(('text-differs-after-read', '%s: MIR_output differs after the binary round trip' % tag))
         if 'X0' in d and d.get('X1') != d.get('X0'):
             bad.append(('exec-differs-after-read', '%s: execution differs after the binary round trip: %s vs %s' % (tag, d.get('X0'), d.get('X1'))))
+        # temp-name counters restored from reserved names: the next generated temporary names must be unused
+        if d.get('FR1', 'ok') != 'ok':
+            bad.append(('temp-name-clash-after-read', '%s: after the binary read the next temporary name is already in use: %s'
+                        % (tag, d.get('FR1'))))
+        elif d.get('FR0', 'ok') != 'ok' and 'newctx' in case:
+            bad.append(('temp-name-clash-after-read', '%s: after reading the separately written modules into one context the next '
+                        'temporary name is already in use: %s' % (tag, d.get('FR0'))))
     # tie: model bytes vs raw bytes
     if 'SKIPPED' in model or 'SKIPPED' in raw:
         return bad
@@ -78,6 +91,10 @@ def judge(case, raw, cmpr, model):
             bad.append(('tie:model-reader', 'model reader rejects its own bytes: %s' % model.get('RB')))
         elif model.get('AST') == 'differs':
             bad.append(('tie:model-ast', 'model reader does not return the normalised module'))
+        if raw.get('RB') == 'ok' and 'TN1' in model and (raw.get('TN1'), raw.get('TR1')) != (model.get('TN1'), model.get('TR1')):
+            bad.append(('tie:temp-counters', 'last_temp_item_num / last_temp_num after the read differ from the model '
+                        '(process_reserved_name): items %s vs %s, regs %s vs %s' % (raw.get('TN1'), model.get('TN1'),
+                                                                                 raw.get('TR1'), model.get('TR1'))))
     if model.get('DRIVER-ERROR'):
         bad.append(('tie:driver', 'model driver error'))
     return bad
@@ -124,6 +141,12 @@ def run(chk):
         bad = judge(case, a, b, m)
         if 'WF' in m:
             chk.dist('theorem_hypotheses', 'wf_ctx holds' if m['WF'] == '1' else 'outside wf_ctx')
+        chk.dist('context', 'modules built in several contexts, read into one (overlapping label numbers)' if 'newctx' in case
+                 else 'several modules, one context' if case.count('endmodule') > 1 else 'one module')
+        if a.get('TN1', '').strip('0,') or a.get('TR1', '').strip('0,'):
+            chk.dist('temp_counters', 'some counter restored to non-zero by the read')
+        if a.get('FR0', 'ok') != 'ok' and 'newctx' not in case:
+            chk.dist('temp_counters', 'harness: clash in the original context')
         if any(s == 'gen:rejected' for s, _ in bad):
             rejected += 1
             chk.dist('outcome', 'rejected-by-api')
@@ -183,7 +206,7 @@ def replay(chk, path):
     r1, r2, rm = run_cases(chk, exes, [case])
     bad = judge(case, r1[0], r2[0], rm[0])
     print('case:', case)
-    for k in ('build', 'W2', 'RB', 'T1', 'X0', 'X1', 'CRASH'):
+    for k in ('build', 'W2', 'RB', 'T1', 'TN1', 'TR1', 'X0', 'X1', 'FR0', 'FR1', 'CRASH'):
         print('  raw.%s = %s   compressed.%s = %s' % (k, r1[0].get(k, '-')[:100], k, r2[0].get(k, '-')[:100]))
     for s, w in bad:
         print('FAIL', s, w)
